@@ -253,7 +253,7 @@ def run(ctx):
     for f in oracle_fail:
         ctx.violation("implementation violates C08: " + json.dumps({k: v for k, v in f.items() if k not in ("lines",)}, ensure_ascii=False)[:600],
                       {"kind": "impl-vs-oracle", "case": {k: v for k, v in f.items() if k != "lines"}, "lines": f["lines"]}, tag="oracle", signature={"kind": "c08-recovery", "why": f["why"]})
-    found = bool(crashes or oracle_fail)
+    found = bool(ctx.violations)          # (crashes attributed to a known finding do not count)
     if not pr["ok"] and not found:
         ctx.violation("theorem(s) no longer check: " + ", ".join(pr["failed"]), {"kind": "theorem", "theorems": pr["failed"], "lean_output": pr["output"][-1500:]}, tag="theorem", no_input=True)
     if tie_fail and not found:
